@@ -195,7 +195,7 @@ def gen_case(rng, force=None):
     if r < 0.12:
         parser_kw["add_help"] = False
     elif r < 0.18:
-        parser_kw["prefix_chars"] = "-+"
+        parser_kw["prefix_chars"] = rng.choice(["-+", "-+", "+-"])   # "+-": the help option is still -h/--help in argparse
     elif r < 0.26:
         parser_kw["argument_default"] = rng.choice([5, SUP, "ad"])
     elif r < 0.32:
@@ -303,7 +303,10 @@ def gen_case(rng, force=None):
         if badpool:
             groups.append(list(rng.choice(badpool)))
     if rng.random() < 0.22:
-        groups.append(list(rng.choice([["--unknown"], ["--unk=3"], ["--help"]] if merged else JUNK)))
+        junk = [["--unknown"], ["--unk=3"], ["--help"]] if merged else JUNK
+        if "prefix_chars" in parser_kw:
+            junk = junk + [["+h"], ["++help"], ["-h"], ["+z"]]
+        groups.append(list(rng.choice(junk)))
     keep_pos_order = rng.random() < 0.5
     if not keep_pos_order:
         rng.shuffle(groups)
@@ -330,6 +333,12 @@ def gen(tier, seed):
     for argv in (["--help", "--model"], ["-h", "--model", "zz"], ["--model", "mb", "--help"]):
         cases.append(dict(forest="subgroup", parser_kw={}, decls=[["arg", "p", ["--verbose"], dict(action="store_true")], ["dc"]],
                           parents=[], argv=argv, mode="known"))
+    # which characters spell the help option: prefix_chars with and without "-", in both orders
+    for pc, fname in (("+-", "none"), ("+-", "single"), ("-+", "single"), ("+", "none"), ("+/", "none")):
+        for kw in (dict(prefix_chars=pc), dict(prefix_chars=pc, add_help=False)):
+            for argv in ([], ["-h"], ["+h"], ["++help"], ["--help"], ["+p", "3"], ["++plus=4", "+h"]):
+                cases.append(dict(forest=fname, parser_kw=dict(kw), parents=[], argv=list(argv), mode="known",
+                                  decls=[["arg", "p", ["+p", "++plus"], dict(type="int", default=0)], ["dc"]]))
     # every parent program alone and next to a dataclass, every group override
     for i in range(len(PARENTS)):
         for cls in ("std", "sp"):
